@@ -280,6 +280,7 @@ func absentCandidates(live []rec, hist []rec) []uint64 {
 
 type ecFixture struct {
 	dir  string
+	data string // directory of the shard / .vif files; differs from dir (the index directory) in half of the fixtures, as with the volume server's -dir.idx option
 	base string
 	live []rec
 	ecx0 []byte // sorted index as generated
@@ -287,7 +288,19 @@ type ecFixture struct {
 
 func newEcFixture(t fataler, hist []rec) *ecFixture {
 	dir := vlib.TempDir()
-	fx := &ecFixture{dir: dir, base: filepath.Join(dir, "1"), live: liveSet(hist)}
+	fx := &ecFixture{dir: dir, data: dir, base: filepath.Join(dir, "1"), live: liveSet(hist)}
+	// a pure function of the generated history, so that replays take the same branch
+	var h uint64
+	for _, r := range hist {
+		h = h*31 + r.key + uint64(len(hist))
+	}
+	if h%2 == 1 {
+		fx.data = filepath.Join(dir, "data")
+		if err := os.MkdirAll(fx.data, 0755); err != nil {
+			t.Fatalf("mkdir: %v", err)
+		}
+		vlib.Class("separate-index-directory")
+	}
 	mustWrite(t, fx.base+".idx", idxBytes(hist))
 	if err := erasure_coding.WriteSortedFileFromIdx(fx.base, ".ecx"); err != nil {
 		t.Fatalf("WriteSortedFileFromIdx: %v", err)
@@ -300,8 +313,12 @@ func newEcFixture(t fataler, hist []rec) *ecFixture {
 	return fx
 }
 
-func openEc(t fataler, dir string) *erasure_coding.EcVolume {
-	ev, err := erasure_coding.NewEcVolume(types.DiskType(""), dir, dir, "", needle.VolumeId(1))
+func openEc(t fataler, fx *ecFixture) *erasure_coding.EcVolume {
+	data := fx.data
+	if data == "" {
+		data = fx.dir
+	}
+	ev, err := erasure_coding.NewEcVolume(types.DiskType(""), data, fx.dir, "", needle.VolumeId(1))
 	if err != nil {
 		t.Fatalf("NewEcVolume: %v", err)
 	}
@@ -437,7 +454,7 @@ func runEcDeletes(t fataler, fx *ecFixture, order []uint64, reopen map[int]bool,
 	for _, r := range fx.live {
 		present[r.key] = true
 	}
-	ev := openEc(t, fx.dir)
+	ev := openEc(t, fx)
 	closed := false
 	defer func() {
 		if !closed {
@@ -459,7 +476,7 @@ func runEcDeletes(t fataler, fx *ecFixture, order []uint64, reopen map[int]bool,
 	for i, k := range order {
 		if reopen[i] {
 			ev.Close()
-			ev = openEc(t, fx.dir)
+			ev = openEc(t, fx)
 		}
 		if err := ev.DeleteNeedleFromEcx(types.NeedleId(k)); err != nil {
 			t.Fatalf("%s: DeleteNeedleFromEcx(%x): %v", ctx(i), k, err)
@@ -491,7 +508,7 @@ func runEcDeletes(t fataler, fx *ecFixture, order []uint64, reopen map[int]bool,
 	}
 
 	// reopening the EC volume sees the same state
-	ev2 := openEc(t, fx.dir)
+	ev2 := openEc(t, fx)
 	checkFind(t, ev2, fx.live, deleted, append(allKeys(fx.live), order...), c+" (reopened)")
 	ev2.Close()
 
@@ -664,6 +681,10 @@ func TestPropEcxDelete(t *testing.T) {
 		for si, k := range singles {
 			f2 := &ecFixture{dir: vlib.TempDir(), live: fx.live, ecx0: fx.ecx0}
 			f2.base = filepath.Join(f2.dir, "1")
+			if fx.data != fx.dir {
+				f2.data = filepath.Join(f2.dir, "data")
+				os.MkdirAll(f2.data, 0755)
+			}
 			mustWrite(t, f2.base+".ecx", fx.ecx0)
 			runEcDeletes(t, f2, []uint64{k}, nil, n <= 48, si == 0)
 			os.RemoveAll(f2.dir)
@@ -1018,7 +1039,7 @@ func TestFindingEcxMarkOffset(t *testing.T) {
 	// four entries; delete the third one (position 2)
 	fx := newEcFixture(t, probeHist())
 	defer os.RemoveAll(fx.dir)
-	ev := openEc(t, fx.dir)
+	ev := openEc(t, fx)
 	err := ev.DeleteNeedleFromEcx(types.NeedleId(30))
 	_, size30, _ := ev.FindNeedleFromEcx(types.NeedleId(30))
 	ev.Close()
